@@ -472,7 +472,8 @@ def merge_projections(arr):
         return arr
     if len(arr) == 1 or not has_none(arr[0]):
         return arr[0]
-    sparse_fa = np.copy(arr[0])
+    # a plain list: the arguments may themselves be lists (np.copy would try to build one array of them)
+    sparse_fa = list(arr[0])
     i = 0
     k = 1
     while i < len(sparse_fa) and k < len(arr):
